@@ -131,7 +131,7 @@ def run(chk):
     chk.sample({'transition': behs[len(behs) // 2]})
 
     # 3 code -> spec
-    n = 400 if quick else 6000
+    n = 400 if quick else 15000
     traces = pool_map(_random_trace, [chk.seed * 1000003 + i for i in range(n)])
     devs, done, st, tr = dc.validate_events('Trace_Dispatch', traces, 'Trace_Dispatch.cfg', timeout=1000)
     chk.states += st
